@@ -137,9 +137,9 @@ Fixpoint parse_digits (prev : bool) (s : str) : option uint :=
       end
   end.
 
-(* Py_UNICODE_ISSPACE *)
+(* what int() strips: ASCII isspace, and the non-ASCII Py_UNICODE_ISSPACE characters (0x1c-0x1f are NOT stripped) *)
 Definition is_space (c : Z) : bool :=
-  ((9 <=? c) && (c <=? 13)) || ((28 <=? c) && (c <=? 32)) || (c =? 133) || (c =? 160) || (c =? 5760)
+  ((9 <=? c) && (c <=? 13)) || (c =? 32) || (c =? 133) || (c =? 160) || (c =? 5760)
   || ((8192 <=? c) && (c <=? 8202)) || (c =? 8232) || (c =? 8233) || (c =? 8239) || (c =? 8287) || (c =? 12288).
 
 Fixpoint lstrip (s : str) : str :=
